@@ -385,3 +385,102 @@ def boundary_expr(c):
 
 K.FAMILIES["boundary"] = (gen_boundary_case, run_boundary_impl, boundary_expr)
 K.HEADER = K.HEADER.replace("Distrib Kinds Run.", "Distrib Kinds Boundary Run.")
+
+
+# ---------------------------------------------------------------------------
+# C19 monitor: the property clauses on the real River / RiverReservoir with tank-backed neighbours
+# ---------------------------------------------------------------------------
+def monitor_c19(rep, n, pid="C19"):
+    import mon_comp as M
+    from exnum import exp_s
+    r = C.rng("mon_c19")
+    viol = 0
+    st = {"river_cases": 0, "abstractions": 0, "started_below": 0, "reservoir_cases": 0, "releases": 0, "limited_downstream": 0}
+
+    def bad(c, i, msg):
+        nonlocal viol
+        viol += 1
+        if viol <= 3:
+            c2 = dict(c)
+            c2["ops"] = c["ops"][:i + 1]
+            rep.violation("counterexample", f"{pid} monitor: {msg}", {"family": "kind", "case": K.case_json(c2), "monitor_message": msg}, True)
+
+    for ci in range(n):
+        c = gen_kind_case(r, 10)
+        c["cls"] = "River" if ci % 2 == 0 else "RiverReservoir"
+        for a in c["ins"] + c["outs"]:            # honest neighbours: tank-backed
+            if a["nb"]["kind"] != "tank":
+                a["nb"] = {"kind": "tank", "cap": r.choice([F(5), F(10), F(100), UNBOUNDED]), "init": G.rand_vqip(r, len(c["adds"]), len(c["nons"]), wet=True)}
+        if c["cls"] == "River":
+            c["ops"] = [("pull", r.choice([G.rand_q(r), F(3), F(8), F(20), F(200)])) if r.random() < 0.8 else r.choice([("push", K.push_amount(r, K.Part(c["adds"], c["nons"]), F(10))), ("distribute",)])
+                        for _ in range(r.randint(1, 8))]
+        else:
+            c["outs"] = [a for a in c["outs"] if a["ty"] in (0, 1, 2)] or c["outs"]
+            c["ops"] = [r.choice([("push", K.push_amount(r, K.Part(c["adds"], c["nons"]), c["cap"])), ("satisfy",), ("satisfy",), ("abstract",), ("end",)])
+                        for _ in range(r.randint(1, 8))]
+        install_exact()
+        G.set_partition(c["adds"], c["nons"])
+        try:
+            R = KindRun(c)
+            h = R.hub
+            for i, op in enumerate(c["ops"]):
+                with contextlib.redirect_stdout(io.StringIO()):
+                    if c["cls"] == "River":
+                        up = frac(h.get_connected(direction="pull", of_type=["River", "Node"])["avail"])
+                        rc = frac(h.get_riverrc())
+                        allow = frac(h.mrf) / rc
+                        W = frac(h.tank.storage["volume"]) + up
+                    else:
+                        sat0 = frac(h.total_environmental_satisfied)
+                        sto0 = frac(h.tank.storage["volume"])
+                        out0 = sum(frac(a.vqip_in["volume"]) for a, nb in R.outs)
+                try:
+                    rr = R.do(op)
+                except ZeroDivisionError:
+                    break
+                if c["cls"] == "River" and op[0] == "pull":
+                    st["abstractions"] += 1
+                    got = frac(rr["volume"])
+                    with contextlib.redirect_stdout(io.StringIO()):
+                        up2 = frac(h.get_connected(direction="pull", of_type=["River", "Node"])["avail"])
+                    W2 = frac(h.tank.storage["volume"]) + up2
+                    if W <= allow:
+                        st["started_below"] += 1
+                        if got != 0:
+                            bad(c, i, f"River at or below its minimum-flow allowance ({W} <= {allow}) still gave {got}")
+                    else:
+                        if got > W - allow:
+                            bad(c, i, f"abstraction of {got} exceeds the water above the allowance ({W} - {allow})")
+                        if W2 < allow and W2 < W - got:
+                            pass          # availability seen upstream may shrink for other reasons (arc capacity used)
+                        if W - got < allow:
+                            bad(c, i, f"River started above its allowance ({W} >= {allow}) and was drawn down to {W - got}")
+                    if got > op[1]:
+                        bad(c, i, f"River gave {got} for a request of {op[1]}")
+                if c["cls"] == "RiverReservoir" and op[0] == "satisfy":
+                    st["releases"] += 1
+                    env = frac(h.environmental_flow)
+                    outstanding = max(env - sat0, 0)
+                    delivered = sum(frac(a.vqip_in["volume"]) for a, nb in R.outs) - out0
+                    counted = frac(h.total_environmental_satisfied) - sat0
+                    if delivered > outstanding:
+                        bad(c, i, f"release sent {delivered} downstream, more than the outstanding {outstanding}")
+                    if counted != delivered:
+                        bad(c, i, f"release counted {counted} as satisfied but {delivered} went downstream")
+                    free = all(frac(a.capacity) - (frac(a.flow_in) - 0) >= 0 for a, nb in R.outs)
+                    took = sto0 - frac(h.tank.storage["volume"])
+                    if took != delivered:
+                        bad(c, i, f"reservoir lost {took} but {delivered} went downstream")
+                    if delivered < min(outstanding, sto0):
+                        st["limited_downstream"] += 1
+                        # less than required went out: only acceptable if the downstream side refused it
+                        with contextlib.redirect_stdout(io.StringIO()):
+                            room = frac(h.get_connected(direction="push")["avail"])
+                        if room > EPS and len(R.outs) > 0:
+                            bad(c, i, f"release delivered {delivered} < min(outstanding {outstanding}, contents {sto0}) although downstream still has room for {room}")
+            st["river_cases" if c["cls"] == "River" else "reservoir_cases"] += 1
+            rep.add_eval(("mon_c19", str(c)), nontrivial=len(c["ops"]) >= 2)
+        finally:
+            G.reset_partition()
+    st["violations"] = viol
+    rep.monitor[f"{pid}_kinds"] = st
